@@ -164,6 +164,7 @@ def emit(pkg, model_dir, fmt, file_stems=None):
     pkgio.write_conf(model_dir, pkg['apdep'], pkg['logd_step'], version=None if fmt == 'v1' else 2,
                      length_subdir=2 if layout.startswith('sub') else 0, style=pkg.get('conf_style', 0))
     if fmt == 'v1':
+        sapu = pkg.get('sed_ap_unit', 'AU')    # (only set by checks that compare apertures as lengths)
         os.mkdir(os.path.join(model_dir, 'seds'))
         for m, name in enumerate(names):
             mwav, midx = swav, idx
@@ -196,7 +197,8 @@ def emit(pkg, model_dir, fmt, file_stems=None):
                     os.mkdir(sdir)
             gz = layout.endswith('gz') or (layout == 'mixed' and m % 2 == 1)
             pkgio.write_sed_file(os.path.join(sdir, name + '_sed.fits' + ('.gz' if gz else '')), name, mwav, pkgio.wav_to_nu(mwav),
-                                 stored_aps, fl, er, flux_unit=unit, err_unit=eunit,
+                                 None if stored_aps is None else [a * gen.AP_UNIT_FACTOR[sapu] for a in stored_aps], fl, er,
+                                 flux_unit=unit, err_unit=eunit, ap_unit=sapu,
                                  wav_unit='MICRONS' if legacy else 'um', nu_unit='HZ' if legacy else 'Hz')
         pkgio.write_parameters(model_dir, names, pkg['params'], order=pkg['perm'], gz=bool(pkg.get('par_gz')))
     else:
